@@ -4,6 +4,7 @@ package absnfs
 
 func init() {
 	vpRegister("VPH_C12_access", VPH_C12_access)
+	vpRegister("VPH_C12_connection", VPH_C12_connection)
 }
 
 func VPH_C12_access() {
@@ -73,4 +74,53 @@ func VPH_C12_access() {
 	// the attributes in the same reply describe the same object
 	vpAssert(attr.mode&0777 == perm&0777, "reply-mode")
 	vpAssert(attr.uid == fuid, "reply-uid")
+}
+
+// VPH_C12_connection: ACCESS from two different AUTH_SYS identities on one record-marking
+// connection (real connection loop): root first, then an arbitrary non-root caller who is neither the
+// owner nor in the group - the second answer is computed for the second caller (the "other" class),
+// not for whoever spoke first on the connection.
+func VPH_C12_connection() {
+	fs := vpNewFS()
+	n := fs.addFile("/f", 10)
+	perm := vpU32("perm") & 0777
+	n.perm = perm
+	env := vpServer(fs, ExportOptions{Squash: "none"})
+	h := env.handleFor("/f")
+	env.srv.options.UseRecordMarking = true
+	uid2, gid2 := vpU32("uid2"), vpU32("gid2")
+	vpAssume(vpAnd(uid2 != 0, gid2 != 0)) // the file belongs to 0:0
+	mask := vpU32("mask")
+	var in []byte
+	for k := 0; k < 2; k++ {
+		var b vpBuf
+		u, g := uint32(0), uint32(0)
+		if k == 1 {
+			u, g = uid2, gid2
+		}
+		b.u32(uint32(200+k)).u32(RPC_CALL).u32(2).u32(NFS_PROGRAM).u32(NFS_V3).u32(NFSPROC3_ACCESS)
+		b.u32(AUTH_SYS).opaque(vpAuthSysBody(7, "h", u, g, nil)).u32(AUTH_NONE).u32(0)
+		b.fh(h).u32(mask)
+		in = append(in, vpFrame(b.Bytes())...)
+	}
+	conn := &vpConn{in: in, remote: "10.0.0.5:800"}
+	env.srv.handleConnectionWithRecordMarking(conn, env.h)
+	replies, ok := vpSplitRecords(conn.out)
+	vpAssert(vpAnd(ok, len(replies) == 2), "both-calls-answered")
+	if len(replies) != 2 {
+		return
+	}
+	rd := &vpRd{b: replies[1]}
+	hdr := vpRPCReplyHeader(rd)
+	vpAssert(vpAnd(hdr.accepted, hdr.acceptStat == SUCCESS), "second-call-accepted")
+	vpAssert(rd.u32() == NFS_OK, "second-access-ok")
+	rd.postOp()
+	granted := rd.u32()
+	o := perm & 7
+	var want uint32
+	want |= vpIteU32(o&4 != 0, ACCESS3_READ, 0)
+	want |= vpIteU32(o&1 != 0, ACCESS3_EXECUTE, 0)
+	want |= vpIteU32(o&2 != 0, ACCESS3_MODIFY|ACCESS3_EXTEND, 0)
+	want &= mask
+	vpAssert(granted == want, "second-caller-judged-as-itself")
 }
